@@ -160,6 +160,50 @@ FIX_TEMPLATES = [
     ("too_many_positional_args", ["t{k} = callee(1, 2, 3, 4, 5, 6,", "            7, 8, 9, x, y)"], "t{k}"),
     ("too_many_positional_args", ["t{k} = callee(", "    1, 2, 3, 4, 5, 6, 7, 8, 9, x, y", ")"], "t{k}"),
 ]
+# assignment shapes around the unused-variable fix: (body lines, returned expression)
+ASSIGN_TEMPLATES = [
+    (["a{k} = b{k} = x + 1"], "b{k}"),
+    (["a{k} = b{k} = x + 1"], "a{k}"),
+    (["a{k} = b{k} = c{k} = x"], "a{k}, c{k}"),
+    (["a{k} = b{k} = c{k} = x"], "b{k}"),
+    (["a{k} = b{k} = c{k} = str(x)"], "c{k}"),
+    (["a{k} = b{k} = len(str(x))"], "a{k}"),
+    (["a{k} = b{k} = print('side', x)"], "b{k}"),
+    (["a{k} = b{k} = (x +", "    1)"], "b{k}"),
+    (["a{k} = b{k} = [", "    x,", "    y,", "]"], "a{k}"),
+    (["a{k} = b{k} = x", "print(b{k})"], "x"),
+    (["a{k} = b{k} = x"], "x"),
+    (["a{k}, b{k} = x, y"], "a{k}"),
+    (["a{k}, b{k} = x, y"], "x"),
+    (["[a{k}, b{k}] = x, y"], "x"),
+    (["(a{k}, b{k}) = c{k} = (x, y)"], "c{k}"),
+    (["a{k} = (b{k}, c{k}) = (x, y)"], "b{k}"),
+    (["a{k} = x", "a{k} += 1"], "x"),
+    (["a{k}: int = x"], "x"),
+    (["a{k}: int = b{k} = x"] , "x") if False else (["a{k}: object = print('ann', x)"], "x"),
+    (["with open(os.devnull) as fh{k}:", "    print(x)"], "x"),
+    (["with open(os.devnull) as fh{k}, open(os.devnull) as gh{k}:", "    print(gh{k}.name)"], "x"),
+    (["for i{k} in range(2):", "    print(x)"], "x"),
+    (["for i{k}, j{k} in [(1, 2)]:", "    print(i{k})"], "x"),
+    (["if (w{k} := x + 1) > 0:", "    print(x)"], "x"),
+    (["print([0 for c{k} in range(2)])"], "x"),
+    (["print([c{k} for c{k}, d{k} in [(1, 2)]])"], "x"),
+    (["a{k} = b{k} = x", "del b{k}"], "x"),
+    (["try:", "    a{k} = b{k} = int(x)", "except ValueError as e{k}:", "    b{k} = 0"], "b{k}"),
+]
+FIX_TEMPLATES += [("unused_variable", b, r) for b, r in ASSIGN_TEMPLATES]
+# the replacement attached to unused_ignore reports (remove the comment line / strip the comment)
+FIX_TEMPLATES += [
+    ("unused_ignore", ["# static analysis: ignore[bad_unpack]", "print(x)"], "x"),
+    ("unused_ignore", ["# static analysis: ignore", "print(x)"], "x"),
+    ("unused_ignore", ["print(x)  # static analysis: ignore[bad_unpack]"], "x"),
+    ("unused_ignore", ["print(x)  # static analysis: ignore"], "x"),
+    ("unused_ignore", ["print(x)  # static analysis: ignore[bad_unpack] because reasons"], "x"),
+    ("unused_ignore", ["print(x)  # static analysis: ignore, see above"], "x"),
+    ("unused_ignore", ["print(x)  # note # static analysis: ignore[bad_unpack]"], "x"),
+]
+UNUSED_FIX_CFG = {"cli_on": ["unused_ignore"], "cli_off": ["bare_ignore"], "top_off": [], "override": None, "module": "pa.pb"}
+
 FIX_CFG = {"cli_on": ["use_fstrings", "missing_f", "too_many_positional_args"], "cli_off": ["unused_ignore", "bare_ignore"],
            "top_off": [], "override": None, "module": "pa.pb"}
 
@@ -167,7 +211,7 @@ FIX_CFG = {"cli_on": ["use_fstrings", "missing_f", "too_many_positional_args"], 
 def gen_fix_program(rng, k, forced=None):
     code, body, ret = forced or rng.choice(FIX_TEMPLATES)
     ind = rng.choice([4, 4, 8])
-    lines = list(CALLEE)
+    lines = ["import os"] + list(CALLEE)
     if rng.random() < 0.3:
         lines.insert(0, "# a leading comment")
     lines.append(f"def target(x, y):")
@@ -181,11 +225,30 @@ def gen_fix_program(rng, k, forced=None):
     lines += pre
     for b in body:
         lines.append(" " * ind + b.format(k=k))
+    rets = [ret.format(k=k)]
+    if forced is None and rng.random() < 0.4:
+        # a second fixable statement in the same function: the fixes are applied one per iteration
+        code2, body2, ret2 = rng.choice(FIX_TEMPLATES)
+        for b in body2:
+            lines.append(" " * ind + b.format(k=k + 5000))
+        rets.append(ret2.format(k=k + 5000))
     for b in post:
         lines.append((" " * ind + b) if b else "")
     if ind == 8 and (not post or post[-1].startswith("#") or post[-1] == ""):
         lines.append(" " * ind + "pass")
-    lines.append("    return " + ret.format(k=k) + (", z" if pre == ["    z = y"] else ""))
+    if ind == 8:
+        # names bound only inside the `if` would be unbound on the other path
+        lines.append(" " * ind + "return " + ", ".join(rets) + (", z" if pre == ["    z = y"] else ""))
+        lines.append("    return None")
+    else:
+        lines.append("    return " + ", ".join(rets) + (", z" if pre == ["    z = y"] else ""))
+    if forced is None and rng.random() < 0.35:
+        # the fixable statement is the last statement of the file (with / without a final newline)
+        body3, ret3 = rng.choice(ASSIGN_TEMPLATES[:11])
+        lines.append("def last_fn(x, y):")
+        lines.append("    print(x)")
+        for b in body3:
+            lines.append("    " + b.format(k=k + 9000))
     return code, lines
 
 
@@ -221,11 +284,14 @@ def _behaviour(text):
         raise
     except BaseException as ex:
         return [("module", type(ex).__name__)]
-    for args in [(1, "a"), (0, None), (7, 2)]:
+    calls = [("target", a) for a in [(1, "a"), (0, None), (7, 2)]]
+    if "last_fn" in ns:
+        calls += [("last_fn", (3, 4))]
+    for fn, args in calls:
         buf = io.StringIO()
         try:
             with contextlib.redirect_stdout(buf):
-                r = ns["target"](*args)
+                r = ns[fn](*args)
             out.append(("ok", repr(r), buf.getvalue()))
         except _Timeout:
             raise
@@ -234,18 +300,18 @@ def _behaviour(text):
     return out
 
 
-def intended_text(code, text):
+def intended_text(code, text, lineno=None):
     """The program the fix is meant to produce, as far as behaviour goes: for missing_f the string
-    literal of the reported line becomes an f-string; the other fixes keep the behaviour."""
+    literal on the reported line becomes an f-string; the other fixes keep the behaviour."""
     if code != "missing_f":
         return text
     out = []
-    for l in text.split("\n"):
-        st = l.lstrip()
-        if st.startswith("s") and " = '" in l and "{" in l:
-            l = l.replace(" = '", " = f'", 1)
-        elif st.startswith("s") and ' = "' in l and "{" in l:
-            l = l.replace(' = "', ' = f"', 1)
+    for i, l in enumerate(text.split("\n"), 1):
+        if lineno is None or i == lineno:
+            if " = '" in l and "{" in l:
+                l = l.replace(" = '", " = f'", 1)
+            elif ' = "' in l and "{" in l:
+                l = l.replace(' = "', ' = f"', 1)
         out.append(l)
     return "\n".join(out)
 
@@ -265,20 +331,37 @@ def removal_facts(text, applied):
                 for st in blk:
                     if isinstance(st, ast.stmt) and st.lineno == first:
                         return {"exact": sorted(applied["del"]) == list(range(st.lineno, st.end_lineno + 1)),
+                                "single_target": isinstance(st, ast.Assign) and len(st.targets) == 1 and isinstance(st.targets[0], ast.Name),
                                 "alone": len(blk) == 1,
                                 "has_call": any(isinstance(n, ast.Call) for n in ast.walk(st))}
     return None
 
 
 def fix_job(job):
+    """Apply the proposed replacement, re-check, repeat (one replacement per run) up to the fixpoint.
+    -> {"steps": [{"text", "out", "applied", "new"}], "final_out", "error"}"""
     code, lines = job
-    text = "\n".join(lines) + "\n"
+    text = "\n".join(lines) + ("\n" if len(lines) % 2 else "")
+    steps = []
+    final_out, final_desc, error = None, None, None
     with contextlib.redirect_stderr(io.StringIO()):
-        r0 = lines_impl.run_case(text, FIX_CFG)
-        r = lines_impl.run_case(text, dict(FIX_CFG, apply=True))
-        new = r["new_text"]
-        r2 = lines_impl.run_case(new, FIX_CFG) if (new and new != text and _parses(new)) else None
-    return {"code": code, "text": text, "before": r0, "apply": r, "new": new, "after": r2}
+        for _ in range(7):
+            r = lines_impl.run_case(text, dict(UNUSED_FIX_CFG if code == "unused_ignore" else FIX_CFG, apply=True))
+            if r["error"]:
+                error = r["error"]
+                break
+            final_out = r["out"]
+            final_desc = r["desc"]
+            new = r["new_text"]
+            # check_for_test re-terminates every line: a missing final newline alone is not a change
+            if new is None or new == "".join(l + "\n" for l in text.splitlines()):
+                break
+            steps.append({"text": text, "out": r["out"], "desc": r["desc"], "applied": r["applied"], "new": new})
+            if not _parses(new):
+                final_out = None
+                break
+            text = new
+    return {"code": code, "steps": steps, "final_out": final_out, "final_desc": final_desc, "error": error, "text0": "\n".join(lines)}
 
 
 def _parses(t):
@@ -353,7 +436,7 @@ def run(tier: str, replay: str | None = None):
                 fix_cases.append((c["code"], c["fix_lines"]))
             else:
                 iter_cases.append((c["text"], c["cfg"]))
-        n_iter = 50 if tier == "quick" else 400
+        n_iter = 70 if tier == "quick" else 400
         for i in range(n_iter):
             iter_cases.append(("\n".join(gen_program(rng)) + "\n", BASE_CFG))
         for i in range(3 if tier == "quick" else 12):
@@ -361,7 +444,7 @@ def run(tier: str, replay: str | None = None):
             iter_cases.append((f"import os\ndef f{k}():\n    print(undef_{k})  {IGNORE}[bad_unpack]\n    return os.sep\n", UNUSED_ON_CFG))
         for i, t in enumerate(FIX_TEMPLATES):
             fix_cases.append(gen_fix_program(rng, i, forced=t))
-        for i in range(20 if tier == "quick" else 300):
+        for i in range(110 if tier == "quick" else 900):
             fix_cases.append(gen_fix_program(rng, 100 + i))
 
     # ---- part A: the add-ignores iteration --------------------------------
@@ -510,75 +593,94 @@ def run(tier: str, replay: str | None = None):
     # ---- part B: node replacements ------------------------------------------
     res_b = pool(fix_job, fix_cases)
     apply_lines, apply_meta = [], []
-    for (code, lines), r in zip(fix_cases, res_b):
-        n_eval += 1
-        if r["before"]["error"] or r["apply"]["error"]:
-            harness_problems.append(f"fix case {code}: {(r['before']['error'] or r['apply']['error'])[:300]}")
+    for (tcode, lines), r in zip(fix_cases, res_b):
+        if r["error"] and not r["steps"]:
+            harness_problems.append(f"fix case {tcode}: {r['error'][:300]}")
             continue
-        before = r["before"]["out"]
-        prop = [d for d in before if d[0] == code]
-        hist["fix_" + code + ("" if prop else "_not_reported")] += 1
-        if not prop:
-            continue
-        distinct.add(r["text"])
-        problems = []
-        new = r["new"]
-        if before and before[0][0] != code:
-            hist["fix_first_diag_is_other"] += 1
-            continue
-        if new == r["text"]:
+        if not r["steps"]:
             hist["fix_no_change_proposed"] += 1
+            n_eval += 1
             continue
-        if not _parses(new):
-            problems.append("result does not parse")
-        else:
-            after = r["after"]["out"] if r["after"] and not r["after"]["error"] else None
-            if after is None:
-                problems.append("re-check failed: " + str(r["after"] and r["after"]["error"])[:200])
+        distinct.add(r["text0"])
+        for si, stp in enumerate(r["steps"]):
+            n_eval += 1
+            text, before, new, ap = stp["text"], stp["out"], stp["new"], stp["applied"]
+            code = before[0][0] if before else tcode  # the first reported diagnostic proposed changes[0]
+            hist["fix_" + str(code)] += 1
+            hist[f"fix_step_{min(si, 3)}"] += 1
+            problems = []
+            if not _parses(new):
+                problems.append("result does not parse")
             else:
-                cb, ca = collections.Counter(d[0] for d in before), collections.Counter(d[0] for d in after)
-                if ca[code] >= cb[code]:
-                    problems.append(f"the proposing diagnostic is still reported: {after[:4]}")
-                extra = ca - cb
-                if extra:
-                    problems.append(f"new diagnostics after the fix: {dict(extra)}")
-            want = behaviour(intended_text(code, r["text"]))
-            if behaviour(new) != want:
-                problems.append(f"behaviour is not the intended one: expected {want}, got {behaviour(new)}")
-            sm = difflib.SequenceMatcher(a=r["text"].splitlines(), b=new.splitlines(), autojunk=False)
-            blocks = [op for op in sm.get_opcodes() if op[0] != "equal"]
-            if len(blocks) != 1:
-                problems.append(f"{len(blocks)} separate blocks of lines changed")
-        hist["fix_ok" if not problems else "fix_fail"] += 1
-        # correspondence for _apply_changes_to_lines: queue the recorded Replacement for the translated function
-        ap = r["apply"].get("applied")
-        if exe is not None and ap is not None:
-            old_lines = [l + "\n" for l in r["text"].splitlines()]
-            adds = ap["add"]
-            enc = ["A", str(len(ap["del"])), *map(str, ap["del"]), "1" if adds is not None else "0", str(len(adds or []))]
-            enc += [c11.enc_line(a) for a in (adds or [])]
-            enc += [str(len(old_lines))] + [c11.enc_line(l) for l in old_lines]
-            apply_lines.append(" ".join(enc))
-            apply_meta.append((r["text"], ap, new))
-        if problems:
-            facts = removal_facts(r["text"], ap) if _parses(r["text"]) else None
-            fid = None
-            if code == "unused_variable" and facts and facts["exact"]:
-                if facts["alone"] and any("parse" in p for p in problems):
-                    fid = "C16-removal-empties-block"
-                elif facts["has_call"] and all("behaviour" in p for p in problems):
-                    fid = "C16-unused-assignment-drops-call"
-            # faithful model of remove_node: the text is the old one minus exactly the statement's lines
-            predicted = None
-            if facts and facts["exact"]:
-                ol = r["text"].splitlines(keepends=True)
-                predicted = "".join(l for i, l in enumerate(ol, 1) if i not in set(ap["del"]))
-            if fid in known and predicted == new:
-                hist["attributed_" + fid] += 1
-                rep.known(fid, known[fid]["what"])
-                continue
-            failing.append({"kind": "failing-input", "what": "node replacement (" + code + ")", "input": {"code": code, "fix_lines": lines},
-                            "problems": problems, "observed": new, "expected": "parses, diagnostic gone, same behaviour, one block changed"})
+                nxt = r["steps"][si + 1] if si + 1 < len(r["steps"]) else {"out": r["final_out"], "desc": r["final_desc"]}
+                after = nxt["out"]
+                if after is None:
+                    problems.append("re-check failed: " + str(r["error"])[:200])
+                else:
+                    # a diagnostic is identified by its code and its message (positions move with the edit)
+                    cb = collections.Counter((d[0], m) for d, m in zip(before, stp["desc"]))
+                    ca = collections.Counter((d[0], m) for d, m in zip(after, nxt["desc"]))
+                    prop = (before[0][0], stp["desc"][0])
+                    if ca[prop] >= cb[prop]:
+                        problems.append(f"the proposing diagnostic is still reported: {prop}")
+                    # nothing new may appear, except that removing dead code can make further variables unused
+                    extra = {k: v for k, v in (ca - cb).items() if not (code == "unused_variable" and k[0] == "unused_variable")}
+                    if extra:
+                        problems.append(f"new diagnostics after the fix: {sorted(extra)}")
+                want = behaviour(intended_text(code, text, before[0][1] if before else None))
+                got = behaviour(new)
+                if got != want:
+                    problems.append(f"behaviour is not the intended one: expected {want}, got {got}")
+                sm = difflib.SequenceMatcher(a=text.splitlines(), b=new.splitlines(), autojunk=False)
+                blocks = [op for op in sm.get_opcodes() if op[0] != "equal"]
+                if len(blocks) != 1:
+                    problems.append(f"{len(blocks)} separate blocks of lines changed")
+            hist["fix_ok" if not problems else "fix_fail"] += 1
+            # correspondence for _apply_changes_to_lines: queue the recorded Replacement for the translated function
+            if exe is not None and ap is not None:
+                old_lines = [l + "\n" for l in text.splitlines()]
+                adds = ap["add"]
+                enc = ["A", str(len(ap["del"])), *map(str, ap["del"]), "1" if adds is not None else "0", str(len(adds or []))]
+                enc += [c11.enc_line(a) for a in (adds or [])]
+                enc += [str(len(old_lines))] + [c11.enc_line(l) for l in old_lines]
+                apply_lines.append(" ".join(enc))
+                apply_meta.append((text, ap, new))
+            if problems:
+                facts = removal_facts(text, ap) if _parses(text) else None
+                fid = None
+                if code == "unused_variable" and facts and facts["exact"]:
+                    if facts["alone"] and any("parse" in p for p in problems):
+                        fid = "C16-removal-empties-block"
+                    elif facts["has_call"] and facts["single_target"] and all("behaviour" in p for p in problems):
+                        # guard of the finding: `name = <expression with a call>` — removing the statement is the
+                        # intended edit for the unused name, the lost call is the defect
+                        fid = "C16-unused-assignment-drops-call"
+                if code == "unused_ignore" and ap and ap["add"] and len(ap["del"]) == 1 and any("parse" in p or "behaviour" in p for p in problems):
+                    # guard of C16-unused-ignore-strip-leaves-text: other text follows the ignore marker inside the comment;
+                    # faithful model: the line with every marker removed (rgx.sub)
+                    import re as _re
+                    rgx = _re.compile(_re.escape(IGNORE) + r"(\[[^\s\]]+\])?")
+                    old_line = text.splitlines()[ap["del"][0] - 1]
+                    m = rgx.search(old_line)
+                    if m and old_line[m.end():].strip() and ap["add"] == [rgx.sub("", old_line) + "\n"]:
+                        fid2 = "C16-unused-ignore-strip-leaves-text"
+                        if fid2 in known:
+                            hist["attributed_" + fid2] += 1
+                            rep.known(fid2, known[fid2]["what"])
+                            continue
+                # faithful model of remove_node: the text is the old one minus exactly the statement's lines
+                predicted = None
+                if facts and facts["exact"]:
+                    ol = [l + "\n" for l in text.splitlines()]
+                    predicted = "".join(l for i, l in enumerate(ol, 1) if i not in set(ap["del"]))
+                if fid in known and predicted == new:
+                    hist["attributed_" + fid] += 1
+                    rep.known(fid, known[fid]["what"])
+                    continue
+                failing.append({"kind": "failing-input", "what": f"node replacement ({code}), step {si + 1}", "input": {"code": tcode, "fix_lines": lines},
+                                "problems": problems, "before": text, "observed": new, "removal_facts": facts,
+                                "expected": "parses, diagnostic gone, no new diagnostic, same behaviour, one block changed"})
+                break
 
     apply_mismatch = []
     if exe is not None and apply_lines:
